@@ -6,7 +6,7 @@ from .framework import run_check
 def registry():
     from . import props_reduce as pr
 
-    return {"C01": pr.C01, "C02": pr.C02}
+    return {"C01": pr.C01, "C02": pr.C02, "C03": pr.C03, "C05": pr.C05, "C06": pr.C06, "C16": pr.C16, "C20": pr.C20}
 
 
 def main():
